@@ -28,7 +28,7 @@ def main():
         traceback.print_exc()
         frames = traceback.extract_tb(sys.exc_info()[2])
         in_impl = any(os.path.abspath(f.filename).startswith(os.path.abspath(common.REPO) + os.sep) for f in frames)
-        if ctx.violations or in_impl:
+        if ctx.violations or ctx.broken or in_impl:
             # the implementation raised where the correspondence expects an answer, or the run stopped after concrete
             # violations had been recorded: the tie no longer checks; report what was found (never on the unchanged tree)
             where = next((f for f in reversed(frames) if os.path.abspath(f.filename).startswith(os.path.abspath(common.REPO) + os.sep)), frames[-1])
